@@ -96,6 +96,59 @@ func c17Schemes() map[string]*c17Scheme {
 	}
 }
 
+// encodings of the eight small-order points of edwards25519, canonical and non-canonical
+// (sign bit on x = 0, y + p for y < 19): all are accepted by ZIP-215 point decoding.
+var c17TorsionHex = []string{
+	"0100000000000000000000000000000000000000000000000000000000000000", // (0,1)
+	"ecffffffffffffffffffffffffffffffffffffffffffffffffffffffffffff7f", // (0,-1)
+	"0000000000000000000000000000000000000000000000000000000000000000", // order 4
+	"0000000000000000000000000000000000000000000000000000000000000080", // order 4
+	"26e8958fc2b227b045c3f489f2ef98f0d5dfac05d3c63339b13802886d53fc05", // order 8
+	"26e8958fc2b227b045c3f489f2ef98f0d5dfac05d3c63339b13802886d53fc85",
+	"c7176a703d4dd84fba3c0b760d10670f2a2053fa2c39ccc64ec7fd7792ac037a",
+	"c7176a703d4dd84fba3c0b760d10670f2a2053fa2c39ccc64ec7fd7792ac03fa",
+	"0100000000000000000000000000000000000000000000000000000000000080", // (0,1), sign bit set
+	"ecffffffffffffffffffffffffffffffffffffffffffffffffffffffffffffff", // (0,-1), sign bit set
+	"eeffffffffffffffffffffffffffffffffffffffffffffffffffffffffffff7f", // y = p+1
+	"eeffffffffffffffffffffffffffffffffffffffffffffffffffffffffffffff",
+	"edffffffffffffffffffffffffffffffffffffffffffffffffffffffffffff7f", // y = p
+	"edffffffffffffffffffffffffffffffffffffffffffffffffffffffffffffff",
+}
+
+func c17Torsion() [][]byte {
+	var out [][]byte
+	for _, h := range c17TorsionHex {
+		b := verifh.MustUnHex(h)
+		if c17EdSmallOrder(b) {
+			out = append(out, b)
+		}
+	}
+	return out
+}
+
+// the bytes decode (ZIP-215 rules) to a point P with [8]P = 0
+func c17EdSmallOrder(b []byte) bool {
+	if len(b) != 32 {
+		return false
+	}
+	p, err := new(edwards25519.Point).SetBytes(b)
+	if err != nil {
+		return false
+	}
+	q := new(edwards25519.Point).MultByCofactor(p)
+	return q.Equal(edwards25519.NewIdentityPoint()) == 1
+}
+
+// b + t as points, re-encoded canonically
+func c17EdAdd(b, t []byte) ([]byte, bool) {
+	p, e1 := new(edwards25519.Point).SetBytes(b)
+	q, e2 := new(edwards25519.Point).SetBytes(t)
+	if e1 != nil || e2 != nil {
+		return nil, false
+	}
+	return new(edwards25519.Point).Add(p, q).Bytes(), true
+}
+
 // validPk: the bytes decompress to a point of the prime-order subgroup G1 other than infinity
 // (blst KeyValidate), evaluated on blst directly — independent of crypto/bls.PublicKeyFromBytes.
 func c17BLSPkValid(b []byte) bool {
@@ -359,6 +412,26 @@ func c17Generate(r *verifh.Run) []string {
 			}
 		}
 	}
+	// --- ed25519 (ZIP-215): small-order public keys with s = 0 and every small-order R encoding
+	{
+		sc := scs["ed25519"]
+		tors := c17Torsion()
+		zero := make([]byte, 32)
+		one := make([]byte, 32)
+		one[0] = 1
+		for ai, a := range tors {
+			msg := []byte{byte(ai)}
+			if ai%2 == 1 {
+				msg = r.RNG.Bytes(33)
+			}
+			lines = append(lines, c17SigLine("orig", sc, "small-order-key", a, append(c17Clone(tors[0]), zero...), msg))
+			for ri, rb := range tors[1:] {
+				lines = append(lines, c17SigLine("mut", sc, fmt.Sprintf("small-order-R%d", ri+1), a, append(c17Clone(rb), zero...), msg))
+			}
+			lines = append(lines, c17SigLine("mut", sc, "small-order-s=1", a, append(c17Clone(tors[0]), one...), msg))
+			lines = append(lines, c17SigLine("mut", sc, "other-msg", a, append(c17Clone(tors[0]), zero...), append(c17Clone(msg), 7)))
+		}
+	}
 	// --- BLS public keys / signatures that decompress but are not valid group elements
 	{
 		sc := scs["bls"]
@@ -436,7 +509,21 @@ func c17Generate(r *verifh.Run) []string {
 				p2 := c17Clone(pk)
 				p2[31] ^= 0x80
 				mut("A-signbit", p2, sig)
-				// R + small-order point is not expressible without re-hashing; covered by byte mutations
+				// R and A shifted by / replaced with every small-order point encoding
+				for ti, tb := range c17Torsion() {
+					if q, ok := c17EdAdd(sig[:32], tb); ok && !bytes.Equal(q, sig[:32]) {
+						m := c17Clone(sig)
+						copy(m[:32], q)
+						mut(fmt.Sprintf("R+torsion%d", ti), pk, m)
+					}
+					if q, ok := c17EdAdd(pk, tb); ok && !bytes.Equal(q, pk) {
+						mut(fmt.Sprintf("A+torsion%d", ti), q, sig)
+					}
+					m := c17Clone(sig)
+					copy(m[:32], tb)
+					mut(fmt.Sprintf("R=torsion%d", ti), pk, m)
+					mut(fmt.Sprintf("A=torsion%d", ti), tb, sig)
+				}
 			case "secp256r1":
 				rr := new(big.Int).SetBytes(sig[:32])
 				s := new(big.Int).SetBytes(sig[32:])
@@ -709,13 +796,29 @@ func TestVerifC17(t *testing.T) {
 			if verified && cur.ok && cur.scheme == sc.name && bytes.Equal(cur.msg, msg) &&
 				!(bytes.Equal(cur.pk, pk) && bytes.Equal(cur.sig, sig)) {
 				if bytes.Equal(cur.pk, pk) {
-					r.Violation("malleable-signature-"+sc.name, "a different signature encoding (%s) verifies for the same message and key: %s", f[2], l)
+					key := "malleable-signature-" + sc.name
+					if sc.name == "ed25519" {
+						p1, e1 := new(edwards25519.Point).SetBytes(sig[:32])
+						p2, e2 := new(edwards25519.Point).SetBytes(cur.sig[:32])
+						switch {
+						case c17EdSmallOrder(pk):
+							// ZIP-215 admits small-order keys: [8][k]A = 0, so s = 0 with any small-order R verifies
+							key += "-small-order-key"
+						case e1 == nil && e2 == nil && p1.Equal(p2) == 1 && !bytes.Equal(sig[:32], cur.sig[:32]):
+							key += "-noncanonical-R"
+						}
+					}
+					r.Violation(key, "a different signature encoding (%s) verifies for the same message and key: %s", f[2], l)
 				} else {
 					r.Violation("alternative-pubkey-verifies-"+sc.name, "a different public key encoding (%s) verifies the same signature: %s", f[2], l)
 				}
 			}
 			if verified && cur.ok && cur.scheme == sc.name && !bytes.Equal(cur.msg, msg) && bytes.Equal(cur.pk, pk) && bytes.Equal(cur.sig, sig) {
-				r.Violation("signature-verifies-other-message-"+sc.name, "%s", l)
+				key := "signature-verifies-other-message-" + sc.name
+				if sc.name == "ed25519" && c17EdSmallOrder(pk) {
+					key += "-small-order-key"
+				}
+				r.Violation(key, "%s", l)
 			}
 		default:
 			r.Emit(l, "bad-op")
